@@ -166,7 +166,10 @@ vp_complete(int k, int lvl) {
 
 static void
 vp_check_lists(int final) {
-  int lvl, steps, k, kk;
+#ifdef VP_NOCHECK
+  return;
+#endif
+{  int lvl, steps, k, kk;
   unsigned below = 0, seen;
   for (lvl = 0; lvl < VP_LEVELS; lvl++) {
     void *p = nd0.next[lvl];
@@ -206,7 +209,7 @@ vp_check_lists(int final) {
       VP_ASSERT(((seen >> vp_x) & 1u) == (unsigned)(nd_height[vp_x] > lvl), "C10.c(v) after the insert the new node is linked on exactly its levels");
     below = seen;
   }
-}
+}}
 
 #ifdef VP_MIDREAD
 /* The REAL reader between two stores of the running insert. */
@@ -408,6 +411,9 @@ harness(void) {
     vp_insert(i);
   }
 
+#ifdef VP_NOREAD
+  VP_WITNESS("end"); return;
+#endif
   /* ---- readers on the quiescent list ----------------------------------- */
   target[0] = 1;
   target[1] = vp_u8();
